@@ -20,7 +20,7 @@ FILTERS_ARG = ["default('x')", "join(', ')", "replace('a', 'b')", "truncate(5)",
 # filters whose result for a constant input is a generator / iterator / bound method (measured: every built-in filter that is
 # not context-dependent, applied to the literals below, result checked with compiler.has_safe_repr)
 LAZY_FILTERS = {"items", "batch", "slice", "attr", "unique", "reverse"}
-# constant expressions that the optimizer folds into a string containing an object address
+# constant expressions that the optimizer used to fold into a string containing an object address (fixed: df6ea54)
 ADDRESS_TEMPLATES = ["{{ [1, 2]|batch(2)|string }}", "{{ {'k': 1}|items|string }}", "{{ [1, 2, 3]|slice(2)|upper }}",
                      "{{ [1]|batch(1) ~ 'x' }}", "{{ 'a'.upper|string }}", "{{ 'a'|attr('upper')|string }}",
                      "{% set v = (1, 2)|batch(1)|string %}{{ v }}", "{{ [1, 1]|unique|string }}", "{{ [1, 2]|reverse|title }}"]
@@ -75,9 +75,7 @@ class TGen:
         for _ in range(r.randrange(0, 4)):
             f = r.choice(FILTERS) if r.random() < 0.75 else r.choice(FILTERS_ARG)
             if lit and f.split("(")[0] in LAZY_FILTERS:
-                # a constant expression whose intermediate value is a generator is folded to a string holding the generator's
-                # memory address (finding C30:folded-object-address); that family is probed separately (ADDRESS_TEMPLATES)
-                continue
+                self.h("lazy-filter-on-literal")
             e += "|" + f
             self.h("filter")
         c = r.randrange(12)
@@ -92,7 +90,7 @@ class TGen:
             elif c == 3:
                 e = "[%s]" % ", ".join(self.expr(d - 1) for _ in range(r.randrange(1, 4)))
             elif c == 4:
-                e = "(%s)|%s" % (e, r.choice([f for f in FILTERS if not (lit and f in LAZY_FILTERS)]))
+                e = "(%s)|%s" % (e, r.choice(FILTERS))
         return e
 
     def cond(self, d=1):
